@@ -100,6 +100,12 @@ where
         decoy.sketch_slice(&[0xdec0_u64, 0xdec1]).unwrap();
         std::hint::black_box(decoy.get_cardinal_stats());
         ctx.count("fault:decoy-sketcher-of-other-size-polled-first");
+        // same size, a differing only in its fraction (per-thread tables keyed by truncated parameters)
+        let mut sp = plan.setp;
+        sp.a_bits = (plan.setp.a() * (1.0 + 1.0 / 64.0)).to_bits();
+        let mut decoy2 = SetSketcher::<I, u64, H>::new(sp.params(plan.m), BuildHasherDefault::<H>::default());
+        decoy2.sketch_slice(&[0xdec2_u64, 0xdec3]).unwrap();
+        std::hint::black_box(decoy2.get_cardinal_stats());
     }
     let mut merges = 0u64;
     let mut streamed_after_merge = false;
@@ -128,6 +134,16 @@ where
     }
 
     let converge = |ctx: &mut Ctx, nodes: &Vec<GNode<I, H>>, when: &str| -> Result<(), Violation> {
+        // now and then the Jaccard MLE of two nodes is computed on the same estimator object in between (it calls
+        // the parallel estimator internally); whatever it does, later estimates must still follow the registers
+        if ctx.wants("C06") && nodes.len() >= 2 && plan.m <= 64 && (ctx.sched.0 ^ ctx.events) % 11 == 0 {
+            let (s0, s1) = (nodes[0].sk.get_signature().clone(), nodes[1].sk.get_signature().clone());
+            let _ = s0.len() + s1.len();
+            // the optimiser's logger works through a background thread: the per-thread allocation tracker must be off
+            let _ = crate::alloc_track::disarm();
+            let r = caught(|| mle.get_mle(nodes[0].sk.get_signature().as_slice(), nodes[1].sk.get_signature().as_slice()));
+            ctx.count(if r.is_ok() { "fault:jaccard-mle-computed-in-between" } else { "observation:jaccard-mle-panicked" });
+        }
         for (k, n) in nodes.iter().enumerate() {
             let mut fresh = newsk();
             if !n.items.is_empty() {
@@ -501,9 +517,19 @@ impl Scenario for Joins {
         let mut order = plan.items.clone();
         Rng::new(plan.order_seed).shuffle(&mut order);
         let mut whole = make_unode(spec);
-        for i in &order {
-            ctx.ev("deliver", *i);
-            whole.deliver(*i);
+        // the whole set is streamed in a seeded order, item-wise and in slices of seeded lengths
+        let mut cr = Rng::new(plan.order_seed ^ 0x5eed);
+        let mut i = 0;
+        while i < order.len() {
+            let take = if cr.chance(0.5) { 1 } else { cr.urange(1, 7) }.min(order.len() - i);
+            if take == 1 && cr.chance(0.6) {
+                ctx.ev("deliver", order[i]);
+                whole.deliver(order[i]);
+            } else {
+                ctx.ev("deliver-chunk", take as u64);
+                whole.chunk(&order[i..i + take]);
+            }
+            i += take;
         }
         let got = whole.views()[0].1.clone();
         let mut join: Option<Vec<u64>> = None;
